@@ -379,9 +379,12 @@ func skDigit(c byte) bool { return verifAnd(c >= '0', c <= '9') }
 
 var skKinds = []byte{'(', ')', '&', '|', '^', '=', ',', ';', 'f', 'v', 'p'}
 
+var skLastMutation int
+
 func skMutate(toks []skTok, kinds int) []skTok {
 	n := len(toks)
-	switch verifChoice("mutation", kinds) {
+	skLastMutation = verifChoice("mutation", kinds)
+	switch skLastMutation {
 	case 0:
 		return toks
 	case 1: // drop
@@ -416,16 +419,24 @@ func skMutate(toks []skTok, kinds int) []skTok {
 
 // skRender turns tokens into text with symbolic contents. Fields: 1-2 identifier bytes;
 // values: 0..maxVal arbitrary bytes between quotes (a quote byte inside is what it is: the
-// reference decides what the text means); placeholders: 1-2 symbolic digits (thorough: up to
-// 11, covering the int32 boundary); optional white space between tokens.
+// reference decides what the text means); placeholders: 1-2 symbolic digits (thorough: also a concrete
+// prefix at the 32-/64-bit boundaries followed by two symbolic digits); optional white space between tokens.
 func skRender(toks []skTok, maxVal int, maxDigits int) string {
 	s := ""
 	// white-space layouts: none; one blank between all tokens; mixed blanks around/between
-	layout := verifChoice("layout", 2+verifTier())
-	// content variants (one choice per path instead of one per token):
-	// 0: 1-byte field, 1-byte value, 1 digit; 1: 2-byte first field, empty first value, 2 digits;
-	// 2 (thorough): maxVal-byte first value, maxDigits digits
-	variant := verifChoice("contents", 2+verifTier())
+	// thorough tier: the third layout goes with the first four mutation classes, the long
+	// contents (2-byte value, up to 11 placeholder digits) with unmutated sentences; token
+	// insertion and replacement use one layout and the short contents (all combinations
+	// together did not finish within 40 minutes)
+	layout, variant := 1, 0
+	if skLastMutation < 4 {
+		layout = verifChoice("layout", 2+verifTier())
+		cextra := verifTier()
+		if skLastMutation != 0 {
+			cextra = 0
+		}
+		variant = verifChoice("contents", 2+cextra)
+	}
 	firstF, firstV, firstP := true, true, true
 	for i, t := range toks {
 		switch layout {
@@ -492,11 +503,19 @@ func skRender(toks []skTok, maxVal int, maxDigits int) string {
 				continue
 			}
 			firstP = false
+			prefix := ""
+			if n > 2 {
+				// long placeholders: a concrete prefix next to the 32- and 64-bit boundaries (or
+				// leading zeros) followed by two symbolic digits — 11 symbolic digits make every
+				// solver query of the path expensive (the tier did not finish in 40 minutes)
+				prefix = []string{"21474836", "42949672", "000000000", "184467440737095516", "99999999"}[verifChoice("placeholder-prefix", 5)]
+				n = 2
+			}
 			b := verifBytes("d", n)
 			for _, c := range b {
 				verifAssume(skDigit(c))
 			}
-			s += "$" + string(b)
+			s += "$" + prefix + string(b)
 		default:
 			s += string([]byte{t.kind})
 		}
